@@ -321,7 +321,7 @@ def run(check, repo: Repo) -> None:
             n_opt += len(ps) + len(used_fields)
             bad = truthiness_uses(cls, fn)
             check.decide(not bad, "C04-R6", f"{cls.name}.{fn.name}: optional numeric hyper-parameters ({', '.join(sorted(ps | {'self.' + f for f in used_fields}))}) are tested with `is None`", "",
-                         mod.line(bad[0][0]) if bad else mod.line(fn),
+                         mod.line(bad[0][0]) if bad else mod.line(fn), definite=True,
                          fail_detail="; ".join(f"`{unparse(n_)[:70]}` uses {nm} as a truth value" for n_, nm in bad[:3]) +
                                      ": an explicit 0 / 0.0 (e.g. a rotation override of exactly 0) is treated as 'not given' and another value is used — the result is no longer a "
                                      "function of the stated hyper-parameters")
